@@ -130,6 +130,22 @@ func TestC04RoundTrip(t *testing.T) {
 				}
 				cls = append(cls, "zero-appended")
 			}
+			// the codec can be called with any slice: a payload padded with zeros beyond what a frame can carry (256
+			// bytes and more) still says the same, and lengths are not taken modulo anything
+			if rapid.IntRange(0, 7).Draw(t, "pad_beyond_255") == 0 {
+				total := rapid.SampledFrom([]int{256, 257, 256 + len(p), 511, 512, 600}).Draw(t, "padded_len")
+				if total > len(p) {
+					q := append(append([]byte(nil), p...), make([]byte, total-len(p))...)
+					g5, e5, ge := readGuarded(ti, q, true, before, after)
+					if ge != nil {
+						fail("%v", ge)
+					}
+					if e5 != nil || !ref.EqualMsg(g5, canon) {
+						fail("payload padded with zeros to %d bytes decodes differently (err=%v): %+v vs %+v", total, e5, g5, canon)
+					}
+					cls = append(cls, "zero-padded-beyond-255")
+				}
+			}
 			// zero bytes stripped completely (even the last remaining byte when it is zero)
 			full := ti.lay.EncodeFull(val, true)
 			n := len(full)
@@ -163,9 +179,9 @@ func TestC04RoundTrip(t *testing.T) {
 			}
 		} else {
 			// v1: any other length is an error, extensions come back zero (canon has them zero)
-			d := rapid.SampledFrom([]int{-1, 1, -2, 2, 7}).Draw(t, "delta")
+			d := rapid.SampledFrom([]int{-1, 1, -2, 2, 7, 256, 512, 255}).Draw(t, "delta")
 			n := len(p) + d
-			if n >= 0 && n <= 255 {
+			if n >= 0 && n <= 800 {
 				q := make([]byte, n)
 				copy(q, p)
 				_, e5, ge := readGuarded(ti, q, false, before, after)
